@@ -88,17 +88,11 @@ func sweepV3[T comparable, P Object[T]](r *Report, im *Impl[T, P]) {
 	ver := im.Ver
 	is31 := ver == spec.V31
 	var nontrivial, altDiff, amb Counter
-	Iterate(im, v3ClassDims(ver), v3bg(ver), 16, func(idx int, a spec.Assignment, o *T) {
+	dims3 := v3ClassDims(ver)
+	Iterate(im, dims3, v3bg(ver), 16, func(idx int, a spec.Assignment, o *T) {
 		if key, exp, obs := v3CheckObj(im, a, o); key != "" {
-			ac := a.Clone()
-			vec := P(o).Vector()
-			r.Violation(Case{Kind: "v3-score", Key: key, Expected: exp, Observed: obs + " on " + vec,
-				Args: map[string]any{"version": ver.Name, "vector": ver.Full(a)}},
-				func() bool {
-					oo, _ := NewOS(im, NewReport("x", "quick", 0)).Build(ac)
-					k, _, _ := v3CheckObj(im, ac, &oo)
-					return k != ""
-				})
+			iterViolation(r, im, dims3, v3bg(ver), 16, idx, a, "v3-score", key, exp, obs+" on "+P(o).Vector(), nil,
+				func(a spec.Assignment, o *T) string { k, _, _ := v3CheckObj(im, a, o); return k })
 		}
 		w := spec.V3Score(v3ClassOf(a), is31)
 		if w.Env != w.Base {
@@ -126,9 +120,23 @@ func sweepV3[T comparable, P Object[T]](r *Report, im *Impl[T, P]) {
 // CheckC03 — v3.0/v3.1 scores equal the specification equations.
 func CheckC03(r *Report) {
 	r.Rule = "E3 scorespace: per version all 16,588,800 effective environmental classes (8 base metrics x E,RL,RC x CR,IR,AR, X a code of its own) built as canonical objects through Set; BaseScore, TemporalScore, EnvironmentalScore equal the exact rational/integer evaluation of the specification equations (PR by scope, 0.915 cap, version's ModifiedImpact, 10 cap, <=0 => 0, Roundup); Impact/Exploitability within 1e-9 relative; non-trivial = class whose environmental score differs from its base score"
-	r.Bound = "complete for effective classes of both versions (2 x 16,588,800); lifted to all representations by C10"
+	r.Bound = "complete for effective classes of both versions (2 x 16,588,800) in canonical representation; plus every class x one alternative representation per overridable metric (all 22 in thorough) and the all-overridden pattern; deeper representation bounds in C10"
 	sweepV3(r, I30)
 	sweepV3(r, I31)
+	// lifting (shared with C10): every class x every single alternative representation of one overridable metric,
+	// plus the all-overridden patterns; quick restricts RL/RC to 2 values each inside the lifted sweeps
+	thorough := r.Tier == "thorough"
+	each30 := func(a spec.Assignment, o *CVSS30T) (string, string, string) { return v3CheckObj(I30, a, o) }
+	each31 := func(a spec.Assignment, o *CVSS31T) (string, string, string) { return v3CheckObj(I31, a, o) }
+	for _, d := range v3Devs() {
+		if !thorough && d.b != (d.m+1)%len(spec.V31.Metrics[d.m].Values) {
+			continue // quick: one non-trivial base value per overridable metric
+		}
+		sweepV3Lift(r, I30, []v3Dev{d}, !thorough, each30)
+		sweepV3Lift(r, I31, []v3Dev{d}, !thorough, each31)
+	}
+	sweepV3AllOverridden(r, I30, 1, each30)
+	sweepV3AllOverridden(r, I31, 1, each31)
 	r.Evaluations.Store(r.Transitions.Load())
 	a, _ := spec.V31.Parse("CVSS:3.1/AV:A/AC:H/PR:L/UI:R/S:C/C:L/I:H/A:N/E:P/RL:T/RC:R/CR:H/IR:L/AR:M")
 	w := spec.V3Score(v3ClassOf(a), true)
@@ -145,18 +153,16 @@ func init() {
 			return fmt.Sprintf("%s: expected %s; observed %s", k, e, o)
 		}
 		if argStr(c, "version") == "3.0" {
-			a, ok := spec.V30.Parse(argStr(c, "vector"))
-			if !ok {
-				return "replay vector not in the language"
+			a, o, err := objForReplay(I30, c)
+			if err != nil {
+				return err.Error()
 			}
-			o, _ := NewOS(I30, NewReport("x", "quick", 0)).Build(a)
 			return run(v3CheckObj(I30, a, &o))
 		}
-		a, ok := spec.V31.Parse(argStr(c, "vector"))
-		if !ok {
-			return "replay vector not in the language"
+		a, o, err := objForReplay(I31, c)
+		if err != nil {
+			return err.Error()
 		}
-		o, _ := NewOS(I31, NewReport("x", "quick", 0)).Build(a)
 		return run(v3CheckObj(I31, a, &o))
 	}
 }
